@@ -1,5 +1,7 @@
 import GrmVerif.Drive.C19
 import GrmVerif.Drive.C17
+import GrmVerif.Drive.Table
+import GrmVerif.Drive.C01
 import GrmVerif.Drive.C09
 import GrmVerif.Drive.C11
 import GrmVerif.Drive.C12
@@ -10,6 +12,8 @@ def dispatch (prop : String) (args : List Nat) : String :=
   match prop with
   | "C19" => C19.handle args
   | "C17" => C17.handle args
+  | "C03" => C03.handle args
+  | "C01" => C01.handle args
   | "C09" => C09.handle args
   | "C11" => C11.handle args
   | "C12" => C12.handle args
